@@ -5,6 +5,7 @@ import (
 	"math"
 
 	"github.com/sanonone/kektordb/pkg/core/distance"
+	"github.com/sanonone/kektordb/pkg/core/types"
 	rt "github.com/sanonone/kektordb/pkg/zzverifrt"
 )
 
@@ -97,6 +98,93 @@ func ZZVerifC04Model() {
 		}
 		info, ierr := e.DB.GetSingleVectorIndexInfoAPI("i0")
 		rt.Assert(ierr == nil && info.VectorCount == liveCount, "index info: vector count equals the number of live ids")
+	}
+	rt.Reach("end")
+}
+
+// ZZVerifC04Lifecycle: id life cycles with maintenance. Bounded exhaustive histories of one operation family
+// (FAMILY 0: add / delete / vacuum / refine over two ids; FAMILY 1: add / batch add above the batch-path
+// threshold / delete over four ids) with concrete distinct vectors; after every step every read (VGet for each
+// id, VGetMany, cursor listing, count) must equal the map-of-records model: the latest vector of every live id,
+// nothing for deleted ids, a re-added id behaves as new, and vacuum/refine change nothing.
+func ZZVerifC04Lifecycle() {
+	e := zzOpen()
+	// efConstruction = 1: the parallel batch path is taken as soon as the index holds one node
+	rt.Assert(e.VCreate("i0", distance.Euclidean, 2, 1, distance.Float32, "", nil, nil, nil) == nil, "prelude: VCreate")
+	fam := rt.IntRange("family", 0, 1)
+	ids := []string{"a", "b", "c", "d"}
+	model := map[string]*zzRec{}
+	for _, id := range ids {
+		model[id] = &zzRec{}
+	}
+	n := rt.IntRange("n", 1, rt.Param("LN", 4))
+	for step := 0; step < n; step++ {
+		v := float32(step + 1)
+		nOps := 4
+		if fam == 1 {
+			nOps = 3
+		}
+		op := rt.IntRange("lop", 0, nOps-1)
+		if fam == 1 && op == 2 {
+			op = 4 // batch
+		} else if fam == 1 && op == 1 {
+			op = 1
+		}
+		switch op {
+		case 0: // add
+			id := ids[rt.IntRange("lid", 0, 1)]
+			r := model[id]
+			err := e.VAdd("i0", id, []float32{v}, map[string]any{"s": float64(step)})
+			rt.Assert((err == nil) == !r.live, "VAdd: succeeds exactly when the id is not live")
+			if err == nil {
+				r.live, r.bits, r.meta = true, math.Float32bits(v), map[string]any{"s": float64(step)}
+			}
+		case 1: // delete
+			id := ids[rt.IntRange("lid", 0, 1)]
+			r := model[id]
+			err := e.VDelete("i0", id)
+			rt.Assert((err == nil) == r.live, "VDelete: succeeds exactly when the id is live")
+			if err == nil {
+				*r = zzRec{}
+			}
+		case 2: // vacuum
+			rt.Assert(e.VTriggerMaintenance("i0", "vacuum") == nil, "vacuum: no error")
+		case 3: // refine
+			rt.Assert(e.VTriggerMaintenance("i0", "refine") == nil, "refine: no error")
+		case 4: // batch add of c and d (rejected as a whole when either is live)
+			items := []types.BatchObject{
+				{Id: "c", Vector: []float32{v + 100}, Metadata: map[string]any{"s": float64(step)}},
+				{Id: "d", Vector: []float32{v + 200}, Metadata: map[string]any{"s": float64(step)}},
+			}
+			err := e.VAddBatch("i0", items)
+			anyLive := model["c"].live || model["d"].live
+			rt.Assert((err == nil) == !anyLive, "VAddBatch: succeeds exactly when none of its ids is live")
+			if err == nil {
+				*model["c"] = zzRec{live: true, bits: math.Float32bits(v + 100), meta: map[string]any{"s": float64(step)}}
+				*model["d"] = zzRec{live: true, bits: math.Float32bits(v + 200), meta: map[string]any{"s": float64(step)}}
+			}
+		}
+		e.wg.Wait()
+		liveCount := 0
+		for _, x := range ids {
+			m := model[x]
+			d, gerr := e.VGet("i0", x)
+			rt.Assert((gerr == nil) == m.live, "life cycle: VGet finds exactly the live ids")
+			if gerr == nil && m.live {
+				liveCount++
+				rt.Assert(len(d.Vector) == 1 && math.Float32bits(d.Vector[0]) == m.bits, "life cycle: VGet returns the latest vector of the id")
+				rt.Assert(zzJSON(d.Metadata) == zzJSON(m.meta), "life cycle: VGet returns the metadata of the current incarnation")
+			}
+		}
+		many, merr := e.VGetMany("i0", ids)
+		rt.Assert(merr == nil && len(many) == liveCount, "life cycle: VGetMany returns exactly the live ids")
+		got, _, cerr := e.VGetIDsByCursor("i0", 0, 10)
+		rt.Assert(cerr == nil && len(got) == liveCount, "life cycle: cursor listing has exactly the live ids")
+		for _, g := range got {
+			rt.Assert(model[g] != nil && model[g].live, "life cycle: cursor listing has only live ids")
+		}
+		info, ierr := e.DB.GetSingleVectorIndexInfoAPI("i0")
+		rt.Assert(ierr == nil && info.VectorCount == liveCount, "life cycle: vector count equals the number of live ids")
 	}
 	rt.Reach("end")
 }
